@@ -90,7 +90,11 @@ class C01(Prop):
             for t in specs:
                 if rng.random() < 0.15:
                     t["index"] = rng.choice(T.INDEX_KINDS)
-            cases.append({"sep": sep, "tables": specs, "default_sep": rng.random() < 0.3, "path": rng.random() < 0.3})
+            cases.append({"sep": sep, "tables": specs, "default_sep": rng.random() < 0.3, "path": rng.random() < 0.3,
+                          # how the tables are handed to write_csv, the missing-value marker, the line ends of the file
+                          "how": rng.choice(["list", "list", "generator", "tuple", "bundle", "single", "iter"]),
+                          "na_rep": rng.choice([None, None, None, "NaN", "nan", "NAN", "-"]),
+                          "crlf": rng.random() < 0.3})
         if tier == "thorough":
             import itertools
 
@@ -129,15 +133,32 @@ class C01(Prop):
                     pdtable.CSV_SEP = sep
                 else:
                     kw["sep"] = sep
+                how = case.get("how", "list")
+                if how == "single" and len(tabs) != 1:
+                    how = "list"
+                if how == "bundle":
+                    from pdtable import TableBundle
+                    from pdtable.io.parsers.blocks import BlockType
+
+                    arg = TableBundle((BlockType.TABLE, t) for t in tabs)
+                else:
+                    arg = {"list": lambda: tabs, "generator": lambda: (t for t in tabs), "tuple": lambda: tuple(tabs),
+                           "single": lambda: tabs[0], "iter": lambda: iter(tabs)}[how]()
+                wkw = dict(kw)
+                if case.get("na_rep") is not None:
+                    wkw["na_rep"] = case["na_rep"]
                 if case["path"]:
                     fd, tmp = tempfile.mkstemp(suffix=".csv", prefix="pdv_c01_")
                     os.close(fd)
-                    write_csv(tabs, tmp, **kw)
+                    write_csv(arg, tmp, **wkw)
                     text = open(tmp, newline="").read()
+                    if case.get("crlf"):
+                        with open(tmp, "w", newline="") as f:       # the same file with DOS line ends
+                            f.write(text.replace("\r\n", "\n").replace("\n", "\r\n"))
                     blocks = list(read_csv(tmp, **kw))
                 else:
                     s = io.StringIO()
-                    write_csv(tabs, s, **kw)
+                    write_csv(arg, s, **wkw)
                     obs["stream_open"] = not s.closed
                     text = s.getvalue()
                     blocks = list(read_csv(io.StringIO(text), **kw))
@@ -186,6 +207,8 @@ class C01(Prop):
     def to_coq(self, case, obs):
         if "exc" in obs or "text" not in obs:
             return None
+        if case.get("na_rep") not in (None, "-"):
+            return None          # the writer model writes the default marker: another marker is judged by the oracle
         sep = case["sep"]
         text = obs["text"]
         rows = [ln.split(sep) for ln in text.split("\n")]
